@@ -17,16 +17,24 @@ RULE = ("exhaustive: every string of length <= L (L=3 quick; thorough adds lengt
         "(quoted strings with escapes, comments of both kinds, flags, parens, directives, CR/LF/CRLF, BOM, garbage) x "
         "random option sets x adversarial chunkings (cuts inside CR-LF, after a backslash, between * and /, between "
         "the two slashes, every character, random cuts, empty chunks, lines, generator, StringIO). "
-        "A case = (text, option set, delivery); non-trivial = the text contains a character with syntactic meaning; "
+        "sessions: 1200 (quick) / 12000 (thorough) sequences, in one import of srctools.tokenizer, of 1-4 tokenizers that are "
+        "driven by call/peek/push_back/line_num assignments and abandoned (tokens still pushed back, after an error, or "
+        "with the chunk iterator raising mid-string/mid-comment), followed by a fresh Tokenizer over a generated text "
+        "with random options and delivery whose full stream must equal the model's and the result on a pristine import. "
+        "A case = (text, option set, delivery) or one session; non-trivial = the text contains a character with syntactic meaning; "
         "distinct counted per (text, delivery) for the exhaustive part and per (text, options, delivery) for documents.")
 TRUSTED = ["models: TokC (lean/Srctools/Model/TokC.lean, the chunk cursor with Python index semantics and every loop of "
            "_get_token/_handle_comment/_handle_string) and TokA (Model/Tok.lean); tables regenerated from tokenizer.py by "
            "tools/gen_tok.py; str.casefold enters the models as a per-character table computed by CPython for the characters "
            "of each input",
            "call counting wraps Tokenizer._next_char in a subclass (same code paths; results compared with the plain class)",
+           "BaseTokenizer.__call__/peek/push_back are modelled in lean/Srctools/Model/C03Push.lean; tools/gen_c03.py extracts "
+           "from the source that __init__ assigns _pushback = [] and line_num = 1 per instance, that no class-level value "
+           "exists, and that the three methods have the modelled shape (obligation C03_init_ok)",
+           "a 'pristine import' in sessions = a new import of srctools.tokenizer (new class objects) in the same process",
            "_tokenizer.pyx (Cython twin) control flow is not covered"]
 NOT_MODELLED = ['_tokenizer.pyx control flow', 'non-str chunks (bytes / other objects raise ValueError/TypeError by design: outside the property domain)',
-                'BaseTokenizer token-level push_back/peek (not used by the property)',
+                'BaseTokenizer.expect/block/skipping_newlines and IterTokenizer (built on __call__; not exercised)',
                 'Keyvalues.parse itself is not modelled: that it raises only KeyValError is searched directly on the implementation',
                 'the index invariant is stated at token boundaries (inside the loops it is the pre/post-condition of each refinement lemma, not a separate small-step theorem)']
 ASSUMPTIONS = ['str.casefold acts character by character (true of CPython: casefold of a string is the concatenation of the casefolds of its characters)',
@@ -843,7 +851,10 @@ LEVEL_TEXT = ("Lean theorems about the executable models: the concrete chunk-cur
               "(C03_idx_inv); a whole run makes at most 2n+1 calls of _next_char for every chunking (C03_steps, potential "
               "argument). Model and implementation are tied by an exhaustive (length<=3 over 16 symbols x 128 option sets "
               "x all chunkings) and structured-random differential run on every check, comparing tokens, values, line "
-              "numbers, errors and the number of _next_char calls.")
+              "numbers, errors and the number of _next_char calls. BaseTokenizer's push-back layer is a small state machine "
+              "(C03_peek_call, C03_push_call, C03_fresh_stream: a fresh tokenizer drained through __call__ yields run); that "
+              "every tokenizer object starts from its own empty stack and line 1 is the translator obligation C03_init_ok, "
+              "and sessions of abandoned tokenizers followed by a fresh one are compared with the model and a pristine import.")
 LEVEL_NOTE = ("Trusted: Lean kernel + propext/Classical.choice/Quot.sound; tools/gen_tok.py; the correspondence harness. "
               "'Only TokenSyntaxError escapes' holds of the model by typing and is checked directly on the implementation; "
               "'only KeyValError escapes Keyvalues.parse' is searched on the implementation only (one defect fixed, one open "
